@@ -98,6 +98,7 @@ fn run(input: RunInput) -> ScenFuture {
         // adversarial dialer: SNI and certificate name chosen independently
         let k_adv = w.key_for(9);
         let n_adv = w.param("adv_attempts", 0, 4);
+        let mut retired = Vec::new();
         for k in 0..n_adv {
             let l = r.gen_range(0..2usize);
             let pool: Vec<String> = vec![names[l].0.clone(), names[l].1.clone().unwrap_or_else(|| "zz-none".into()), names[1 - l].0.clone(), pick_name(&mut r), "unknown-net".into()];
@@ -121,7 +122,7 @@ fn run(input: RunInput) -> ScenFuture {
             if let Ok(c) = res {
                 c.close(0u32.into(), b"");
             }
-            adv.ep.close(0u32.into(), b"");
+            retired.push(adv);
             sleep_ms(50).await;
         }
         // adversarial listener: which name does an honest dialer offer?
@@ -153,6 +154,7 @@ fn run(input: RunInput) -> ScenFuture {
         if names[0].0 != names[1].0 || names[0].1.is_some() || names[1].1.is_some() { w.mark_overlap(); }
         w.sample("names", json!(samples));
         let out = w.finish();
+        drop(retired);
         drop((nodes, lst));
         out
     })
